@@ -400,7 +400,7 @@ func execFault(cs hx.Sx) hx.Sx {
 	if sys < 0 || sys >= len(sysNames) {
 		return badObs("sys")
 	}
-	for attempt := 0; attempt < 3; attempt++ {
+	for attempt := 0; attempt < 15; attempt++ { // under load the helper's threads are scheduled differently from the calibration run: retry
 		d := scratch()
 		cur := filepath.Join(d, "offsets.yaml")
 		// the good old file, written by the real code without interference
